@@ -45,6 +45,13 @@ def configs(tier, seed):
                     ek = "x".join(f"{l}{k}" for l, k in extra.items()) or "-"
                     out.append(dict(h="conserve", op=kind, key=f"conserve/{kind}/grid={grid}/n={n}/extra={ek}", kind=kind, grid=grid, n=n, extra=extra))
                     out.append(dict(h="balance", op=kind, key=f"balance/{kind}/grid={grid}/n={n}/extra={ek}", kind=kind, grid=grid, n=n, extra=extra))
+    # the same stock object computed before with other drivers; every array handed over as a transposed view (two label dims)
+    for kind in KINDS:
+        for grid in ("uneven", "const"):
+            out.append(dict(h="conserve", op=kind + "again", key=f"conserve/{kind}/grid={grid}/n=3/extra=r2/computed_before", kind=kind, grid=grid, n=3, extra={"r": 2}, again=True))
+        for extra in ({"r": 2, "p": 2}, {"r": 2, "p": 3}):
+            ek = "x".join(f"{l}{k}" for l, k in extra.items())
+            out.append(dict(h="conserve", op=kind + "layout", key=f"conserve/{kind}/grid=const/n=3/extra={ek}/arrays=transposed_views", kind=kind, grid="const", n=3, extra=extra, prealloc=True))
     # a second model on another grid with the same end points and length, built after a first one in the same process
     for kind in ["flow", "idsm", "sdsm_manual"]:
         for n in ([4] if tier == "quick" else [4, 5]):
@@ -132,7 +139,21 @@ def run(cfg, w):
         lifetime = dsm.AnyLifetime(dims=dims, table=tab)
     drv = _drive(w, kind, shape)
     w.set_scale(*drv.values())
-    st = dsm.build_stock(kind, dims, lifetime=lifetime, **drv)
+    if cfg.get("prealloc"):
+        arrays = {}
+        for q in ("inflow", "outflow", "stock"):
+            arrays[q] = dsm.prealloc(w, shape)
+            if q in drv:
+                arrays[q][...] = drv[q]
+        st = dsm.build_stock(kind, dims, lifetime=lifetime, keep_layout=True, **arrays)
+    elif cfg.get("again"):
+        first = {q: w.arr("before_" + q, shape) for q in drv}
+        st = dsm.build_stock(kind, dims, lifetime=lifetime, **first)
+        st.compute()
+        for q, v in drv.items():
+            getattr(st, q).set_values(v.copy())
+    else:
+        st = dsm.build_stock(kind, dims, lifetime=lifetime, **drv)
     st.compute()
     chain = kind.startswith("sdsm")
     if h in ("conserve", "second_grid"):
